@@ -117,6 +117,8 @@ pub(super) mod ke {
         pub(crate) log: Vec<Conn>,
         /// incremented by `set_script`; a connection accepted under an older script is not logged
         pub(crate) epoch: u64,
+        /// the NTP versions the KE server accepts, in its configured order (default [4])
+        pub(crate) accepted: Vec<NtpVersion>,
     }
 
     impl Script {
@@ -144,7 +146,7 @@ pub(super) mod ke {
             .into()
     }
 
-    fn build_server(name: &Option<String>, port: Option<u16>) -> KeyExchangeServer {
+    fn build_server(name: &Option<String>, port: Option<u16>, accepted: &[NtpVersion]) -> KeyExchangeServer {
         let chain = std::fs::File::open(test_keys().join("end.fullchain.pem")).expect("end.fullchain.pem");
         let key = std::fs::File::open(test_keys().join("end.key")).expect("end.key");
         let certificate_chain: Vec<Certificate> =
@@ -156,7 +158,7 @@ pub(super) mod ke {
         KeyExchangeServer::new(NtsServerConfig {
             certificate_chain,
             private_key,
-            accepted_versions: vec![NtpVersion::V4],
+            accepted_versions: accepted.to_vec(),
             server: name.clone(),
             port,
             pool_authentication_tokens: vec![],
@@ -169,6 +171,8 @@ pub(super) mod ke {
         pub(crate) port: u16,
         pub(crate) script: Arc<Mutex<Script>>,
         pub(crate) task: tokio::task::JoinHandle<()>,
+        /// the key set the cookies are made with (an NTP server of this "deployment" shares it)
+        pub(crate) keyset: Arc<KeySet>,
     }
 
     impl KeServer {
@@ -183,11 +187,13 @@ pub(super) mod ke {
                 tail_used: 0,
                 log: Vec::new(),
                 epoch: 0,
+                accepted: vec![NtpVersion::V4],
             }));
             let s2 = script.clone();
             let keyset: Arc<KeySet> = KeySetProvider::new(1).get();
+            let keyset_out = keyset.clone();
             let task = tokio::spawn(async move {
-                let mut cache: HashMap<(Option<String>, Option<u16>), Arc<KeyExchangeServer>> = HashMap::new();
+                let mut cache: HashMap<(Option<String>, Option<u16>, Vec<u8>), Arc<KeyExchangeServer>> = HashMap::new();
                 loop {
                     let Ok((stream, _)) = listener.accept().await else {
                         tokio::task::yield_now().await;
@@ -195,10 +201,10 @@ pub(super) mod ke {
                     };
                     let at_us = t0.elapsed().as_micros() as u64;
                     let order = next_order();
-                    let (answer, scripted, epoch) = {
+                    let (answer, scripted, epoch, accepted) = {
                         let mut s = s2.lock().unwrap();
                         let (a, sc) = s.next();
-                        (a, sc, s.epoch)
+                        (a, sc, s.epoch, s.accepted.clone())
                     };
                     let result = match &answer {
                         Answer::Refuse => {
@@ -207,8 +213,8 @@ pub(super) mod ke {
                         }
                         Answer::Hand(name, port) => {
                             let srv = cache
-                                .entry((name.clone(), *port))
-                                .or_insert_with(|| Arc::new(build_server(name, *port)))
+                                .entry((name.clone(), *port, accepted.iter().map(|v| v.as_u8()).collect()))
+                                .or_insert_with(|| Arc::new(build_server(name, *port, &accepted)))
                                 .clone();
                             match srv.handle_connection(stream, &keyset, || None::<()>).await {
                                 Ok(_) => Ok(()),
@@ -222,7 +228,7 @@ pub(super) mod ke {
                     }
                 }
             });
-            KeServer { port, script, task }
+            KeServer { port, script, task, keyset: keyset_out }
         }
 
         pub(crate) fn set_script(&self, queue: Vec<Answer>, tail: Vec<Answer>) {
@@ -232,6 +238,11 @@ pub(super) mod ke {
             s.tail_used = 0;
             s.log.clear();
             s.epoch += 1;
+        }
+
+        /// The NTP versions the KE server accepts from now on (order as configured).
+        pub(crate) fn set_accepted(&self, accepted: &[NtpVersion]) {
+            self.script.lock().unwrap().accepted = accepted.to_vec();
         }
 
         pub(crate) fn take_log(&self) -> Vec<Conn> {
